@@ -133,11 +133,11 @@ func c17Accepts(ae string) bool {
 
 func TestVerifC17Inputs(t *testing.T) {
 	L := ev.Begin("C17", "c17-inputs", "exploration",
-		"inner handler matrix body {empty, 1B, 512B text, 100kB text, already-gzipped} x every chunking class into <=3 writes x explicit/implicit WriteHeader x status {200,201,404,500 (+204,304 bodiless)} x Content-Type {matching, matching+charset, non-matching, absent(sniffed)} x Content-Encoding {none,gzip,br,zstd,aes128gcm} x Content-Length {absent,correct} x request Accept-Encoding {none,gzip,'gzip, deflate',br,identity,'gzip;q=0' and upper-case spellings of it} x an interim 103 before the final status x a second WriteHeader with changed content headers after the first chunk; plus 4 operator expressions (strict about parameters / letter case) x 8 Content-Type spellings x headers flushed before the first write x Accept {*/*, text/event-stream}, served through a real http.Server; oracle: compressed only if the three conditions hold, then labelled, no stale Content-Length, gunzip == inner bytes; otherwise body and headers byte-identical; status always preserved. non-trivial = response with a body")
+		"inner handler matrix body {empty, 1B, 512B text, 100kB text, already-gzipped} x every chunking class into <=3 writes x explicit/implicit WriteHeader x status {200,201,404,500 (+204,304 bodiless)} x Content-Type {matching, matching+charset, non-matching, absent(sniffed)} x Content-Encoding {none,gzip,br,zstd,aes128gcm} x Content-Length {absent,correct} x request Accept-Encoding {none,gzip,'gzip, deflate',br,identity,'gzip;q=0' and upper-case spellings of it} x an interim 103 before the final status x a second WriteHeader with changed content headers after the first chunk; plus 6 operator expressions (strict about parameters / letter case, or matching the empty string) x 8 Content-Type spellings x {plain, headers flushed before the first write, an interim 103 first} x Accept {*/*, text/event-stream}, served through a real http.Server; oracle: compressed only if the three conditions hold, then labelled, no stale Content-Length, gunzip == inner bytes; otherwise body and headers byte-identical; status always preserved. non-trivial = response with a body")
 	bodies := [][]byte{nil, []byte("x"), c17Text(512), c17Text(100 * 1024), c17Gz(c17Text(2000))}
 	ctypes := []string{"text/plain", "text/html; charset=utf-8", "application/json", "image/png", ""}
 	cencs := []string{"", "gzip", "br", "zstd", "aes128gcm"}
-	aes := []string{"", "gzip", "gzip, deflate", "br", "identity", "gzip;q=0", "deflate, gzip;q=0.5", "GZIP;q=0", "identity, GZip ; q=0.000", "GZIP"}
+	aes := []string{"", "gzip", "gzip, deflate", "br", "identity", "gzip;q=0", "deflate, gzip;q=0.5", "GZIP;q=0", "identity, GZip ; q=0.000", "GZIP", "gzip;Q=0", "gzip; Q=0.0, deflate"}
 	accepts := []string{"*/*", "text/event-stream"}
 	type job struct {
 		in     c17Inner
@@ -323,12 +323,21 @@ func TestVerifC17Inputs(t *testing.T) {
 	wg.Wait()
 	// operator expressions that are strict about parameters and letter case: the decision is taken on
 	// the Content-Type header as the upstream wrote it, and only on it
-	for _, expr := range []string{`^text/html$`, `^application/json$`, `^text/(plain|html)(; ?charset=utf-8)?$`, `^(text/.*|application/json)(;.*)?$`} {
+	for _, expr := range []string{`^text/html$`, `^application/json$`, `^text/(plain|html)(; ?charset=utf-8)?$`, `^(text/.*|application/json)(;.*)?$`, `.*`, `^(text/.*)?$`} {
 		re := regexp.MustCompile(expr)
 		for _, ct := range []string{"text/html", "text/html; charset=iso-8859-1", "text/html; charset=utf-8", "text/html;charset=utf-8", "Application/JSON", "application/json", "TEXT/HTML", "application/json; charset=utf-8"} {
-			for _, flushFirst := range []bool{false, true} {
+			for variant := 0; variant < 3; variant++ {
+				flushFirst := variant == 1
 				body := c17Text(5000)
 				inner := http.HandlerFunc(func(w http.ResponseWriter, r *http.Request) {
+					if variant == 2 {
+						// an interim response relayed the way the reverse proxy does it: its headers, the 1xx, headers cleared
+						w.Header().Set("Link", "</s.css>; rel=preload")
+						w.WriteHeader(http.StatusEarlyHints)
+						for k := range w.Header() {
+							delete(w.Header(), k)
+						}
+					}
 					w.Header().Set("Content-Type", ct)
 					if flushFirst {
 						// streaming idiom: push the headers out before the first byte of the body
@@ -349,8 +358,8 @@ func TestVerifC17Inputs(t *testing.T) {
 				resp.Body.Close()
 				srv.Close()
 				L.Case()
-				L.NontrivialKey(fmt.Sprint("strict", expr, ct, flushFirst))
-				d := map[string]interface{}{"expression": expr, "content_type": ct, "flush_before_first_write": flushFirst, "content_encoding": resp.Header.Get("Content-Encoding"), "read_error": fmt.Sprint(rerr)}
+				L.NontrivialKey(fmt.Sprint("strict", expr, ct, variant))
+				d := map[string]interface{}{"expression": expr, "content_type": ct, "flush_before_first_write": flushFirst, "interim_103_first": variant == 2, "content_encoding": resp.Header.Get("Content-Encoding"), "read_error": fmt.Sprint(rerr)}
 				labelled := resp.Header.Get("Content-Encoding") == "gzip"
 				plainBody := raw
 				if labelled {
